@@ -24,6 +24,7 @@ fn check<'a>(ctx: &Ctx) -> DecCheck<'a> {
         random_per_enc: ctx.n(3_000, 150_000),
         profile: Profile { max_tokens: ctx.tier.pick(10, 40), small_caps_weight: 128, queries: false, exact_queries: false, modes: &hist::ALL_MODES, sinks: &hist::ALL_SINKS, bom_prefix_weight: 48 },
         fills: vec![0xA5, 0x00, 0xFF],
+        mixed_sinks: true,
     }
 }
 
